@@ -136,7 +136,7 @@ pub fn run_prop(ctx: &Ctx) -> PropReport {
     let mut rep = PropReport::new("C10", "fault_enumeration");
     let seed = ctx.seed;
     let stride = ctx.tier.pick(4u64, 1u64);
-    let cfgs = ctx.tier.pick(40u64, 400u64);
+    let cfgs = ctx.tier.pick(150u64, 800u64);
     let n = 7 * (60 / stride) * cfgs;
     rep.part(|| run_enum(ctx, "death_split",
         "fault enumeration: seeded 3-4 peer rollback sessions (window 1..=12, sparse, delays, 1-2 local players, latency 0-40 ms, loss 0/5%, timeouts 600-2000 ms) x moment of death (every 4th / every tick of a 60-tick window) x split of the dying peer's last packets (survivor 1 misses its last a in 0..=6 ticks of packets, the others get everything); survivor-survivor links stay up; settle = timeout + 3 s; oracle: no panic, every survivor disconnects the victim, identical (value,status) for the victim's players and identical game state on every frame across survivors, real inputs up to the cut-off then default/Disconnected, survivors keep advancing; non-trivial = the survivors really held different amounts of the victim's input (network ledger)",
